@@ -252,8 +252,24 @@ func (c *Ctx) Finish(ff *FindingsFile, evidencePath string, explanation string, 
 		}
 		fmt.Printf("VIOLATION property=%s replay=%s\n", c.Prop, rp)
 	}
-	for _, o := range v.Undecided {
+	// An undecided obligation means the check could NOT establish its part of the property on this tree (an anchor is
+	// gone, a floor is not met, an exploration overflowed). The interface knows two outcomes only, so it is reported as a
+	// violation too - with a replay file that says "undecided" and why - never as a pass.
+	for i, o := range v.Undecided {
+		os.MkdirAll(vioDir, 0o755)
+		rp := filepath.Join(vioDir, fmt.Sprintf("%s-u%d.json", c.Prop, i+1))
+		b, _ := json.MarshalIndent(map[string]interface{}{
+			"property":  c.Prop,
+			"status":    "undecided: the rule could not be evaluated on this tree, so the property's structural condition is not established",
+			"rule":      o.Rule,
+			"rule_text": c.RuleText[o.Rule],
+			"construct": o.Construct,
+			"detail":    o.Detail,
+			"rerun":     checkerCmd,
+		}, "", "  ")
+		os.WriteFile(rp, b, 0o644)
 		fmt.Printf("UNDECIDED property=%s rule=%s construct=%q %s\n", c.Prop, o.Rule, o.Construct, o.Detail)
+		fmt.Printf("VIOLATION property=%s replay=%s\n", c.Prop, rp)
 	}
 
 	// evidence
@@ -305,7 +321,7 @@ func (c *Ctx) Finish(ff *FindingsFile, evidencePath string, explanation string, 
 		Coverage:    cov,
 		Assumptions: assumptions,
 		WallS:       wall,
-		Violations:  len(v.Violations),
+		Violations:  len(v.Violations) + len(v.Undecided),
 	}
 	b, _ := json.MarshalIndent(ev, "", " ")
 	os.MkdirAll(evDir, 0o755)
@@ -320,11 +336,8 @@ func (c *Ctx) Finish(ff *FindingsFile, evidencePath string, explanation string, 
 	sort.Strings(rules)
 	fmt.Printf("%s [%s]: %d obligations over %d rules (%s): %d discharged, %d known finding(s), %d new violation(s), %d undecided; %.1fs\n",
 		c.Prop, c.Tier, len(c.Obs), len(rules), strings.Join(rules, ","), v.Discharged, len(v.Known), len(v.Violations), len(v.Undecided), wall)
-	if len(v.Violations) > 0 {
+	if len(v.Violations) > 0 || len(v.Undecided) > 0 {
 		return 1
-	}
-	if len(v.Undecided) > 0 {
-		return 2
 	}
 	return 0
 }
